@@ -61,26 +61,62 @@ func VerifyNameErrorNSEC(msg *dns.Msg, nsecSet []dns.RR) error {
 		return ErrNSECMissingCoverage
 	}
 
+	// An NSEC whose NextDomain lies below qname proves that qname is an
+	// empty non-terminal: the name exists and the answer is NODATA, not
+	// NXDOMAIN (RFC 8198 Appendix B).
+	if nsecNextBelow(covering.NextDomain, qname) {
+		return ErrNSECMissingCoverage
+	}
+	// RFC 6840 §4.1: an NSEC at a delegation point (NS without SOA) or at
+	// a DNAME owner says nothing about names below it.
+	if err := nsecAncestorCut(qname, nsecSet); err != nil {
+		return err
+	}
+
 	ce := closestEncloserFromNSEC(qname, covering)
 	if ce == "" {
 		return ErrNSECMissingCoverage
 	}
 
-	// RFC 4592 §4.2: wildcards are not defined at the root zone, so if
-	// the closest encloser is the root, there is no wildcard proof to
-	// require.
-	if ce == "." {
-		return nil
-	}
-
 	wildcard := "*." + ce
+	if ce == "." {
+		wildcard = "*."
+	}
 	for _, rr := range nsecSet {
 		nsec := rr.(*dns.NSEC)
 		if nsecCovers(nsec.Header().Name, nsec.NextDomain, wildcard) {
+			// The wildcard must be absent, not an empty non-terminal.
+			if nsecNextBelow(nsec.NextDomain, wildcard) {
+				return ErrNSECMissingCoverage
+			}
 			return nil
 		}
 	}
 	return ErrNSECMissingCoverage
+}
+
+// nsecNextBelow reports whether next is a strict descendant of name.
+func nsecNextBelow(next, name string) bool {
+	next, name = dns.Fqdn(next), dns.Fqdn(name)
+	return dns.CountLabel(next) > dns.CountLabel(name) && dnsname.Sub(name, next)
+}
+
+// nsecAncestorCut rejects a proof set that contains the NSEC of a zone cut
+// (delegation point or DNAME owner) strictly above name.
+func nsecAncestorCut(name string, nsecSet []dns.RR) error {
+	name = dns.Fqdn(name)
+	for _, rr := range nsecSet {
+		nsec := rr.(*dns.NSEC)
+		owner := dns.Fqdn(nsec.Header().Name)
+		if dns.CountLabel(owner) >= dns.CountLabel(name) || !dnsname.Sub(owner, name) {
+			continue
+		}
+		if typesSet(nsec.TypeBitMap, dns.TypeDNAME) ||
+			(typesSet(nsec.TypeBitMap, dns.TypeNS) && !typesSet(nsec.TypeBitMap, dns.TypeSOA)) {
+			return ErrNSECBadDelegation
+		}
+	}
+	return nil
 }
 
 // closestEncloserFromNSEC derives the closest encloser of qname from the
@@ -164,6 +200,12 @@ func VerifyNODATANSEC(msg *dns.Msg, nsecSet []dns.RR) error {
 			if q.Qtype == dns.TypeDS && typesSet(nsec.TypeBitMap, dns.TypeSOA) {
 				return ErrNSECBadDelegation
 			}
+			// RFC 6840 §4.1: the parent-side NSEC of a delegation point
+			// (NS set, SOA clear) denies nothing but DS at that name.
+			if q.Qtype != dns.TypeDS && typesSet(nsec.TypeBitMap, dns.TypeNS) &&
+				!typesSet(nsec.TypeBitMap, dns.TypeSOA) {
+				return ErrNSECBadDelegation
+			}
 
 			return nil
 		}
@@ -202,6 +244,10 @@ func VerifyNODATANSEC(msg *dns.Msg, nsecSet []dns.RR) error {
 			return ErrNSECTypeExists
 		}
 		if q.Qtype == dns.TypeDS && typesSet(nsec.TypeBitMap, dns.TypeSOA) {
+			return ErrNSECBadDelegation
+		}
+		if q.Qtype != dns.TypeDS && typesSet(nsec.TypeBitMap, dns.TypeNS) &&
+			!typesSet(nsec.TypeBitMap, dns.TypeSOA) {
 			return ErrNSECBadDelegation
 		}
 		return nil
